@@ -83,6 +83,7 @@ impl Chain {
         // stateful venue stand-ins at the venue program ids (see venue.rs)
         pt.add_program("kamino_standin", crate::venue::KAMINO, processor!(crate::venue::kamino_entry));
         pt.add_program("solend_standin", crate::venue::SOLEND, processor!(crate::venue::solend_entry));
+        pt.add_program("drift_standin", crate::venue::DRIFT, processor!(crate::venue::drift_entry));
         let payer = kp(seed, 0xFEE);
         pt.add_account(
             payer.pubkey(),
